@@ -167,10 +167,21 @@ def judge(ctx, c, case):
                 continue
             try:
                 names = field_names(c)
-                sib = PPTable(c['sibling'], fmt_obj=t.fmt, header=c['header'], footer=c['footer'])
+                # (the sibling has twice the records: limits that hid nothing in the first table may hide some here)
+                sib_recs = list(c['sibling']) * 2 if len(c['sibling']) % 2 else c['sibling']
+                sib = PPTable(sib_recs, fmt_obj=t.fmt, header=c['header'], footer=c['footer'])
+                sib_fmt_fresh = str(sib.fmt)        # (what it reports before it was ever printed)
                 sib_base = T.render(sib)
                 sib_fmt = str(sib.fmt)
-                sib2 = PPTable(c['sibling'], fields=names, fmt=sib_fmt, header=c['header'], footer=c['footer'],
+                sib0 = PPTable(sib_recs, fields=names, fmt=sib_fmt_fresh, header=c['header'], footer=c['footer'],
+                               fields_types=ftypes(c),
+                               fields_titles={n: c['titles'][f] for n, f in zip(names, T.FIELDS)})
+                if T.render(sib0) != sib_base:
+                    ctx.violation("constructor-with-reported-format-renders-differently",
+                                  {"stage": stage, "when": "format of the sibling taken before its first print",
+                                   "fmt": sib_fmt_fresh, "table": sib_base[:300], "rebuilt": T.render(sib0)[:300]}, case)
+                    return
+                sib2 = PPTable(sib_recs, fields=names, fmt=sib_fmt, header=c['header'], footer=c['footer'],
                                fields_types=ftypes(c),
                                fields_titles={n: c['titles'][f] for n, f in zip(names, T.FIELDS)})
                 sib_rebuilt = T.render(sib2)
